@@ -345,6 +345,8 @@ func translateOneDataBlob(logger log.Logger, match stringMatcher, visitor visito
 			return blob, matched, changed, err
 		}
 
+		deserializeErr := err
+
 		// A change due to repairing invalid UTF8 does not count as a "match".
 		// For example, the access control visitor only wants to match if
 		// a request is allowed or not.
@@ -358,6 +360,11 @@ func translateOneDataBlob(logger log.Logger, match stringMatcher, visitor visito
 			logger.Debug("repaired invalid utf-8 in history event blob")
 			metrics.TranslationCount.WithLabelValues(metrics.UTF8RepairTranslationKind, metrics.HistoryBlobMessageType).Inc()
 			events = repairedEvents
+		} else {
+			// The invalid UTF-8 is somewhere the repair does not reach, so the blob cannot be decoded at all.
+			// Report that instead of treating the blob as empty (which let it pass translation and the
+			// namespace access check unseen).
+			return blob, matched, changed, deserializeErr
 		}
 	}
 
